@@ -31,16 +31,18 @@ func (h *vhandler) OpenFile(r *Request) (WriterAtReaderAt, error) {
 
 // srvSpec describes one scripted session.
 type srvSpec struct {
-	server  string // "rs" or "os"
-	alloc   bool
-	setup   [][]byte // sent one at a time, each response awaited (causally well formed drivers)
-	burst   [][]byte // pipelined in one write
-	files   map[string]string
-	split   bool // handler file ops have enter/exit points
-	hangup  int  // >=0: hang up after writing that many bytes of the burst, without reading responses first
-	rdvOut  bool // server->client pipe is a rendezvous pipe
-	failAt  map[string]int64
-	failOpn []string
+	server    string // "rs" or "os"
+	alloc     bool
+	setup     [][]byte // sent one at a time, each response awaited (causally well formed drivers)
+	burst     [][]byte // pipelined in one write
+	files     map[string]string
+	split     bool // handler file ops have enter/exit points
+	hangup    int  // >=0: hang up after writing that many bytes of the burst, without reading responses first
+	rdvOut    bool // server->client pipe is a rendezvous pipe
+	failAt    map[string]int64
+	failOpn   []string
+	fixedRoot string // os server: serve this directory (wiped first) instead of a fresh scratch directory
+	dirs      []string
 }
 
 type srvRun struct {
@@ -118,7 +120,16 @@ func (s *srvSpec) start() *srvRun {
 		r.alloc = rs.pktMgr.alloc
 		serve = rs.Serve
 	case "os":
-		r.root = scratchDir()
+		if s.fixedRoot != "" {
+			r.root = s.fixedRoot
+			os.RemoveAll(r.root)
+			os.MkdirAll(r.root, 0o755)
+		} else {
+			r.root = scratchDir()
+		}
+		for _, d := range s.dirs {
+			os.Mkdir(filepath.Join(r.root, d), 0o755)
+		}
 		for n, c := range s.files {
 			os.WriteFile(filepath.Join(r.root, n), []byte(c), 0o644)
 		}
@@ -229,7 +240,7 @@ func (r *srvRun) orderOracle(complete bool) string {
 }
 
 func (r *srvRun) cleanup() {
-	if r.root != "" {
+	if r.root != "" && r.spec.fixedRoot == "" {
 		os.RemoveAll(r.root)
 	}
 }
